@@ -365,6 +365,7 @@ def run(ctx):
     variant = None
     try:
         variant = lu_scale.variant(ctx.repo)
+        ctx.l_scaling = lu_scale.l_scaling(ctx.repo)
         ctx.obligation("T:lu_scale (vnacommon_lu.c matches the modelled statements)", True, "variant=" + variant)
     except lu_scale.TranslateError as e:
         ctx.obligation("T:lu_scale (vnacommon_lu.c matches the modelled statements)", False, str(e))
@@ -409,7 +410,7 @@ def run(ctx):
     vfiles = ["Lin/LuGenA.v", "Lin/LuGenB.v", "Lin/LuGenC.v", "Lin/LuGenD.v", "Lin/LuGen.v", "Lin/LuPivot.v",
               "Lin/LuDet3.v", "Lin/LuProofs.v", "Lin/LuNonsing.v", "Lin/LuNonsingQI.v", "Lin/LsProofs.v",
               "Lin/LsLuProofs.v", "Lin/LuDetModel.v", "Lin/LuDetAlg.v", "Lin/LuDetProofs.v", "Lin/LuRowOrderProofs.v",
-              "Lin/DivideProofs.v", "Lin/LuDetExamples.v", "Lin/LuRowOrderNoTie.v", "Lin/LuRowOrderSolvers.v",
+              "Lin/DivideProofs.v", "Lin/LuDetExamples.v", "Lin/LuDetDupRows.v", "Lin/LuRowOrderNoTie.v", "Lin/LuRowOrderSolvers.v",
               "Lin/LuRowOrderScale.v", "Lin/LuRowOrderExamples.v", "Lin/QrAlg.v", "Lin/QrProofs.v", "Lin/QrTheorems.v", "Lin/QrQIProofs.v", "Lin/DivideQrLs.v", "Lin/DivideQrLsQI.v",
               "Properties_C19.v"]
     vfiles = [v for v in vfiles if os.path.exists(os.path.join(vplib.COQDIR, v))]
@@ -754,6 +755,9 @@ def run(ctx):
 
     # ------------------------------------------------------------------ 3e. magnitude sweep of every tie family
     magnitude_sweep_check(ctx, exe, violation, quick)
+
+    # ------------------------------------------------------------------ 3f. duplicated equations, non-dyadic entries
+    duplicated_rows_check(ctx, exe, violation, quick)
 
     # ------------------------------------------------------------------ 4. least squares
     ls_check(ctx, drv, exe, run_both, violation, quick)
@@ -1234,6 +1238,89 @@ def det_laplace_check(ctx, exe, violation, quick):
                    "exact_det": [str(exp[k][0]), str(exp[k][1])]})
 
 
+def duplicated_rows_check(ctx, exe, violation, quick):
+    """Property text: "a solve whose elimination meets an exactly zero pivot (missing row or column, duplicated
+    equations) is reported through the documented error path (EDOM)", "never ... plausible numbers".  Matrices with
+    two BIT-IDENTICAL rows and entries that are not dyadic (integers 1..200, tenths), real and complex, n = 2..6,
+    with and without a duplicated right-hand side, through _vnacommon_lu / _mldivide / _minverse / vnaconv_ztoyn and
+    through vnacal_new_add_mapped_matrix (T8 n x n, the duplicated matrix as `a`).  Expected: determinant exactly 0
+    or non-finite (LuPartial: 0 / NaN) resp. rc = -1 with VNAERR_MATH.  In exact arithmetic the twin row eliminates
+    to exact zeros (Coq: c19_duplicated_rows_rejected_exact_field); the C code does so only if the L term of the twin
+    is exactly 1, i.e. if fl(p * fl(1/p)) = 1 for the pivot p (finding DL90)."""
+    rng = ctx.rng
+    cases = []     # (entries, n, A, B)
+    for p in range(1, 201):
+        cases.append(("real", 2, [[(float(p), 0.0), (1.0, 0.0)], [(float(p), 0.0), (1.0, 0.0)]], [[(1.0, 0.0)], [(1.0, 0.0)]]))
+    nmax = 4 if quick else 6
+    for n in range(2, nmax + 1):
+        for _ in range(40 if quick else 400):
+            for entries in ("real", "complex"):
+                A = [[(rng.randint(-99, 99) / 10.0, rng.randint(-99, 99) / 10.0 if entries == "complex" else 0.0)
+                      for _ in range(n)] for _ in range(n)]
+                B = [[(rng.randint(-99, 99) / 10.0, 0.0)] for _ in range(n)]
+                r1 = rng.randrange(n)
+                r2 = (r1 + 1 + rng.randrange(n - 1)) % n
+                A[r2] = list(A[r1])
+                if rng.random() < 0.5:
+                    B[r2] = list(B[r1])
+                cases.append((entries, n, A, B))
+    lines, idx = [], []
+    for k, (entries, n, A, B) in enumerate(cases):
+        for ln, name in (("lu %d %s" % (n, _fmat(A)), "_vnacommon_lu"),
+                         ("mldivide %d 1 %s %s" % (n, _fmat(A), _fmat(B)), "_vnacommon_mldivide"),
+                         ("minverse %d %s" % (n, _fmat(A)), "_vnacommon_minverse"),
+                         ("ztoyn %d %s" % (n, _fmat(A)), "vnaconv_ztoyn"),
+                         ("add_an %d %s %s" % (n, _fmat(A), _fmat(_fscale(A, 0.5))), "vnacal_new_add_mapped_matrix")):
+            lines.append(ln)
+            idx.append((k, name))
+    rc, out, err = vplib.sh([exe], input="\n".join(lines) + "\n", timeout=600, env=ctx.run_env())
+    if rc != 0:
+        sig = vplib.asan_signature(err) or {"kind": "fault", "error": "exit %d" % rc, "function": None}
+        violation(sig, "lu_harness failed on duplicated rows: " + err[-300:], {"stderr": err[-3000:]})
+        return
+    outl = out.strip().split("\n")
+    okn = len(outl) == len(lines)
+    ctx.obligation("tie:duplicated-row cases ran (%d calls, %d matrices)" % (len(lines), len(cases)), okn, "")
+    if not okn:
+        return
+    unfl = {}          # (name, entries) -> list of (case index, observed)
+    tot = {}
+    for (k, name), ln in zip(idx, outl):
+        entries, n, A, B = cases[k]
+        ctx.count(("dup-rows", name, entries, n) if k % 7 == 0 else None)
+        tot[(name, entries)] = tot.get((name, entries), 0) + 1
+        if name == "vnacal_new_add_mapped_matrix":
+            good = ln.strip() == "add_an rc=-1 callbacks=1 category=MATH"
+            obs = ln.strip()
+        else:
+            r = parse_c_line(ln)
+            xs = r.get("x", [])
+            d = r.get("det")
+            if d is not None:
+                good = d == (0.0, 0.0) or not finite(d)
+                obs = "determinant %s%s" % (d, (", x = %s" % xs[:3]) if xs else "")
+            else:       # vnaconv_ztoyn: the output itself
+                good = not all(finite(v) for v in xs)
+                obs = "finite output %s" % (xs[:2],)
+        if not good:
+            unfl.setdefault((name, entries), []).append((k, obs))
+    ctx.traces_validated += len(lines)
+    ctx.extra["duplicated_rows"] = {"%s / %s entries" % k: "%d of %d not reported" % (len(unfl.get(k, [])), tot[k]) for k in sorted(tot)}
+    for entries in ("real", "complex"):
+        bad = {k: v for k, v in unfl.items() if k[1] == entries}
+        ctx.obligation("tie:duplicated equations (%s non-dyadic entries) give an exactly zero / non-finite determinant and VNAERR_MATH" % entries,
+                       not bad, "; ".join("%s: %d of %d not reported" % (k[0], len(v), tot[k]) for k, v in sorted(bad.items())))
+    for (name, entries), lst in sorted(unfl.items()):
+        k, obs = lst[0]
+        _, n, A, B = cases[k]
+        violation({"kind": "duplicated-rows-unflagged", "function": name, "entries": entries,
+                   "l_scaling": getattr(ctx, "l_scaling", "?")},
+                  "%s on a %dx%d matrix with two identical rows (%s entries) is not reported: %s (%d of %d such inputs)"
+                  % (name, n, n, entries, obs, len(lst), tot[(name, entries)]),
+                  {"function": name, "n": n, "A": [[list(v) for v in row] for row in A], "B": [[list(v) for v in row] for row in B],
+                   "observed": obs, "expected": "determinant exactly 0 or non-finite / rc=-1 VNAERR_MATH", "finding": "DL90"})
+
+
 def _fmat(m):
     """matrix of float pairs -> harness text"""
     return " ".join("%s %s" % (float(a).hex(), float(b).hex()) for row in m for (a, b) in row)
@@ -1324,7 +1411,7 @@ def magnitude_sweep_check(ctx, exe, violation, quick):
     for (bi, s, exact, name, fx, fd), ln in zip(index, outl):
         if s == 1.0 and (bi, name) not in base_out:
             base_out[(bi, name)] = ln
-    bad_eq, bad_verdict = [], []
+    bad_eq, bad_verdict, bad_dup = [], [], []
     n_bit = n_tol = n_verdict = 0
 
     def flagged(r, n, inmag, outfac):
@@ -1347,10 +1434,10 @@ def magnitude_sweep_check(ctx, exe, violation, quick):
             continue
         ctx.count(("sweep", name, tag, n, s))
         if name == "vnacal_new_add_mapped_matrix":
-            if not exact and tag == "dup_row":
-                continue        # rounding noise instead of a zero pivot (see must_flag below): not claimed
             n_verdict += 1
-            if ln.strip() != b0.strip():
+            if tag == "dup_row" and "rc=-1" not in ln:
+                bad_dup.append((name, tag, n, s, "rc=-1, VNAERR_MATH (duplicated equations)", ln.strip(), bi))
+            elif ln.strip() != b0.strip():
                 bad_verdict.append((name, tag, n, s, b0.strip(), ln.strip(), bi))
             elif sing != ("rc=-1" in ln):
                 bad_verdict.append((name, tag, n, s, "singular=%s" % sing, ln.strip(), bi))
@@ -1360,14 +1447,21 @@ def magnitude_sweep_check(ctx, exe, violation, quick):
         f0 = flagged(r0, n, 1.0, 1.0 if name not in ("vnaconv_stozn",) else 50.0)
         f1 = flagged(r1, n, s, (abs(fx) if fx else 1.0) * (1.0 if name not in ("vnaconv_stozn",) else 50.0))
         n_verdict += 1
-        # duplicated rows stay duplicated under a decimal scaling, but the elimination is then no longer exact
-        # (s * (1.0 / s) need not be 1.0): rounding noise instead of a zero pivot, "numerical rank detection ...
-        # not claimed"; a zero row / zero column is exact at every scale
-        must_flag = sing and (exact or tag != "dup_row") and name in (
+        # a zero row, a zero column and a duplicated row (bit-identical rows at every scale) are the "exactly zero
+        # pivot" cases the property names: they must be flagged at every magnitude.  A duplicated row that is NOT
+        # flagged is finding DL90 (the L terms are multiplied by the rounded reciprocal of the pivot, and
+        # fl(p * fl(1/p)) != 1 for some p, so the twin row does not eliminate to an exact zero): reported below.
+        must_flag = sing and name in (
             "lu", "minverse", "mldivide(sA,sB)", "mldivide(sA,B)", "mrdivide(sB,sA)", "vnaconv_ztoyn", "vnaconv_ytozn")
-        # likewise Householder QR on an exactly singular square matrix leaves rounding noise: these verdicts are
-        # compared only where the scaling is exact
-        cmp_verdict = exact or not (sing and (name == "qrsolve(sA,sB)" or tag == "dup_row"))
+        # Householder QR on an exactly singular square matrix leaves rounding noise (numerical rank detection is not
+        # claimed): its verdict is compared only where the scaling is exact
+        cmp_verdict = exact or not (sing and name == "qrsolve(sA,sB)")
+        if tag == "dup_row" and must_flag and not f1:
+            bad_dup.append((name, tag, n, s, "determinant exactly 0 / non-finite output (duplicated equations)",
+                            "finite nonzero determinant %s, output of ordinary size" % (r1.get("det"),), bi))
+            continue
+        if tag == "dup_row" and not must_flag and not exact:
+            continue
         if (cmp_verdict and f0 != f1) or (must_flag and not f1):
             bad_verdict.append((name, tag, n, s, "flagged=%s" % f0, "flagged=%s%s" % (f1, " (exactly singular input)" if must_flag else ""), bi))
             continue
@@ -1402,6 +1496,18 @@ def magnitude_sweep_check(ctx, exe, violation, quick):
                    "; ".join("%s %s n=%d s=%g: %s, got %s" % b[:6] for b in bad_eq[:3]))
     ctx.obligation("tie:singular / nonsingular verdicts identical at every input magnitude (%d calls)" % n_verdict, not bad_verdict,
                    "; ".join("%s %s n=%d s=%g: base %s, scaled %s" % b[:6] for b in bad_verdict[:3]))
+    ctx.obligation("tie:duplicated rows are flagged at every input magnitude", not bad_dup,
+                   "; ".join("%s n=%d s=%g: expected %s, got %s" % (b[0], b[2], b[3], b[4], b[5]) for b in bad_dup[:3]))
+    seen_dup = set()
+    for (name, tag, n, s, a, b, bi) in bad_dup:
+        if name in seen_dup:
+            continue
+        seen_dup.add(name)
+        violation({"kind": "duplicated-rows-unflagged", "function": name, "entries": "complex",
+                   "l_scaling": getattr(ctx, "l_scaling", "?")},
+                  "%s on a %dx%d matrix with a duplicated row, scaled by %g: expected %s, observed %s" % (name, n, n, s, a, b),
+                  {"function": name, "n": n, "scale": s, "finding": "DL90",
+                   "A (unscaled)": [[(str(x), str(y)) for (x, y) in row] for row in bases[bi][2]], "expected": a, "observed": b})
     ctx.extra["magnitude_sweep"] = {"calls": len(all_lines), "bitwise_comparisons": n_bit, "tolerance_comparisons": n_tol,
                                      "verdict_comparisons": n_verdict, "scales": [sc for sc, _ in scales]}
     for kind, lst in (("scale-equivariance", bad_eq), ("scale-verdict", bad_verdict)):
